@@ -30,7 +30,10 @@ class Gen:
         self.next_var = 0
         self.next_tmp = 0
         self.pending = []       # index variables used in a dynamic access: re-assign them later
-        self.stats = dict(depth=0, chain=0, inner_decl=0, dyn=0, nested_path=0, shadow=0, xconst=0, stmts=0, else_if_space=0, var_index=0, index_reassigned=0, dyn_read=0)
+        self.with_defaults = rng.random() < 0.35    # such programs can only be observed postprocessed
+        self.next_dflt = 0
+        self.pending_over = []  # (vid, depth) of defaulted variables: overwrite some unconditionally later
+        self.stats = dict(depth=0, chain=0, inner_decl=0, dyn=0, nested_path=0, shadow=0, xconst=0, stmts=0, else_if_space=0, var_index=0, index_reassigned=0, dyn_read=0, defaults=0, default_overwritten=0)
 
     def visible(self):
         """variables by C++ name lookup: an inner redeclaration hides the outer one"""
@@ -180,6 +183,18 @@ class Gen:
             vid = r.choice(self.visible())[0]; self.stats["shadow"] += 1   # shadowing redeclaration
         else:
             vid = self.next_var; self.next_var += 1
+        if self.with_defaults and self.next_dflt < 6 and r.random() < 0.45:
+            # Bit x = BitDefault(d) / UInt x = UIntDefault(d)
+            if r.random() < 0.5: k, w = "b", 1
+            else: k, w = "u", r.choice([1, 2, 3, 4, 8])
+            d = "".join(r.choice("01") for _ in range(w))
+            kk = self.next_dflt; self.next_dflt += 1
+            self.vars.append((vid, k, w))
+            self.pending_over.append((vid, depth))
+            self.stats["defaults"] += 1
+            if depth > 0:
+                self.stats["inner_decl"] += 1
+            return ["D", "DD %d %s %d %d %s" % (vid, k, w, kk, d)]
         if r.random() < 0.25:
             k, w = "b", 1; e = self.bexpr(2)
         else:
@@ -233,6 +248,17 @@ class Gen:
                 ra = self.reassign_index()
                 if ra:
                     out.append(ra)
+                    continue
+            if self.pending_over and self.rng.random() < 0.2:
+                # unconditional full assignment of a defaulted variable in its own block, after it was
+                # (possibly) read / used as a condition: earlier reads then show this FINAL value
+                cand = [(v, dd) for (v, dd) in self.pending_over if dd == depth and any(x[0] == v for x in self.visible())]
+                if cand:
+                    vid, dd = self.rng.choice(cand)
+                    self.pending_over.remove((vid, dd))
+                    kind, w = [(x[1], x[2]) for x in self.visible() if x[0] == vid][0]
+                    self.stats["default_overwritten"] += 1
+                    out.append(["A", "A %d 0 %s" % (vid, self.bexpr(1) if kind == "b" else self.uexpr(w, 1))])
                     continue
             if not self.vars or r < 0.12:
                 out.append(self.decl(depth))
@@ -345,8 +371,20 @@ def gen_vectors(rng, pins, n):
     return vecs
 
 
+def renumber_dd(lines):
+    """defaulted declarations are numbered in creation order (the shrinker may have removed some)"""
+    out, k = [], 0
+    for l in lines:
+        t = l.split()
+        if t and t[0] == "DD":
+            t[4] = str(k); k += 1
+            l = " ".join(t)
+        out.append(l)
+    return out
+
+
 def prog_text(pid, pins, lines, vecs):
-    t = ["P %s" % pid] + ["pin %s %d" % (k, w) for k, w in pins] + list(lines)
+    t = ["P %s" % pid] + ["pin %s %d" % (k, w) for k, w in pins] + renumber_dd(list(lines))
     t.append("V %d" % len(vecs))
     t += ["I " + " ".join(v) for v in vecs]
     t.append("E")
@@ -432,6 +470,34 @@ def compare_case(res, pid, k):
     g = lambda t: res.get((pid, k, t))
     IR, IP, OR, MS, ME, IX = g("IR"), g("IP"), g("OR"), g("MS"), g("ME"), g("IX")
     MQ = int(g("MQ") or 0)
+    if IR is None and res.get((pid, "-", "MD")) is not None and IP is not None:
+        # defaulted declarations: Node_Default cannot be simulated, the design is observed after
+        # postprocessing only.  ME / MS are evaluated under the model's resolution of the default nodes.
+        if ME is None or MS is None:
+            return [("model-missing", "driver printed nothing")]
+        fp, rp = split_fr(IP); fm, rm = split_fr(ME)
+        same = lambda a, b: (a == b) if MQ else refines(a, b) or a == b
+        okm = len(fm) == len(fp) and len(rm) == len(rp) and \
+            all(a[0] == b[0] and refines(a[1], b[1]) for a, b in zip(fm, fp)) and \
+            all(a[0] == b[0] and refines(a[1], b[1]) and refines(a[2], b[2]) for a, b in zip(rm, rp))
+        if not okm:
+            out.append(("impl-vs-model" if MQ == 0 else "info-post-differs-under-undefined-selector", dict(post=IP, model=ME)))
+        livep = [x for x in rp if x[1] == "1"]
+        if MS != "UNDEF":
+            fs, rs = split_fr(MS)
+            if fs != fm or rs != [x for x in rm if x[1] == "1"]:
+                out.append(("model-seq-vs-model-elab", dict(seq=MS, elab=ME)))
+            if MQ == 0 and not (len(fs) == len(fp) and len(rs) == len(livep) and
+                                all(a[0] == b[0] and refines(a[1], b[1]) for a, b in zip(fs, fp)) and
+                                all(a[0] == b[0] and refines(a[2], b[2]) for a, b in zip(rs, livep))):
+                out.append(("impl-vs-sequential", dict(expected=MS, observed=IP, stage="postprocessed")))
+        if OR not in ("U", None):
+            fo, ro = split_fr(OR)
+            if fo != fp or ro != livep:
+                out.append(("impl-vs-oracle", dict(expected=OR, observed=IP, stage="postprocessed")))
+            if MS == "UNDEF":
+                out.append(("oracle-defined-but-model-undef", dict(oracle=OR)))
+        return out
     if IR is None:
         out.append(("impl-exception", IX or "no output"))
         return out
@@ -517,6 +583,8 @@ def closed(lines):
             stack.pop(); stack.append(set())
         elif t[0] == "END":
             stack.pop()
+        elif t[0] == "DD":
+            stack[-1].add(t[1])
         elif t[0] == "D":
             if not uses_ok(t[4:], stack): return False
             stack[-1].add(t[1])
@@ -593,8 +661,9 @@ def shape_of(lines):
             kinds["else_"] += 1
         elif t[0] == "END":
             depth -= 1; stack.pop()
-        elif t[0] == "D":
+        elif t[0] in ("D", "DD"):
             kinds["decl"] += 1
+            if t[0] == "DD": kinds["decl_default"] = kinds.get("decl_default", 0) + 1
             if depth: kinds["inner_decl"] += 1
         elif t[0] == "R":
             kinds["read"] += 1
@@ -681,7 +750,7 @@ def main():
 
     progs = load_corpus()
     asts = {}
-    gstats = dict(inner_decl=0, dyn=0, nested_path=0, shadow=0, xconst=0, else_if_space=0, var_index=0, index_reassigned=0, dyn_read=0)
+    gstats = dict(inner_decl=0, dyn=0, nested_path=0, shadow=0, xconst=0, else_if_space=0, var_index=0, index_reassigned=0, dyn_read=0, defaults=0, default_overwritten=0)
     for i in range(nprog):
         budget = rng.choice([6, 10, 14, 20, 28] if quick else [8, 14, 22, 32, 45])
         g = Gen(rng, rng.randint(1, max_depth), rng.choice([1, 2, max_chain]), budget)
